@@ -158,3 +158,18 @@ def share_rule(ctx, owner: str, fn, new_rule: str) -> int:
         ctx._add(o.status, new_rule, o.construct, o.detail, o.where)
     ctx.functions_analysed |= sub.functions_analysed
     return len(sub.obligations)
+
+
+def exit_exprs(func: ast.AST) -> List[ast.AST]:
+    """Returned expressions with conditional expressions split into their arms: `return a if c else b` has the exits a and b,
+    exactly like `if c: return a` / `return b` (CANON merges the statement form into the expression form)."""
+    out: List[ast.AST] = []
+    for r in returned_exprs(func):
+        stack = [r]
+        while stack:
+            e = stack.pop()
+            if isinstance(e, ast.IfExp):
+                stack += [e.orelse, e.body]
+            else:
+                out.append(e)
+    return out
